@@ -1,7 +1,7 @@
 (* C01 — Generated parsers recognise exactly the PEG language of the grammar.
    Only statements, `exact`, `Check` pins and Print Assumptions live here. *)
 From PegV Require Import Utf8 Utf8Facts State Terminals TerminalsSpec TerminalsOk Syntax Fields
-  FieldsFacts Literals LiteralsFacts Model Spec Sim Conform Extracted.
+  FieldsFacts Literals LiteralsFacts Model Spec Sim Conform MemoEq MemoSpec Extracted.
 
 (* side conditions on the decision points found in the current source *)
 Theorem C01_facts :
@@ -114,3 +114,35 @@ Print Assumptions C01_trailing.
 
 Check conforms.
 Check (eq_refl : term_match (TmRange 97 122) [98; 99]%N = Some [98%N]).
+
+(* Grammars with @memoize rules (any subset; no @leftrec rule): the model of the
+   generated parser still agrees with the PEG specification on acceptance, tree
+   and end offset, for every pair of recursion bounds - either the specification
+   has not returned yet with that bound, or it returns the same thing.  (The
+   middle disjunct - the unmarked model panics - is the template-plumbing case the
+   simulation leaves open; it never occurs in the correspondence runs.) *)
+Theorem C01_memoized :
+  forall (ustate : Type) (hk : hooks ustate) (shk : shooks) (g : grammar),
+    pure_hooks ustate hk shk ->
+    (forall r, In (GRule r) g -> fl_left_recursive (flags_of (r_directives r)) = false) ->
+    forall n m rule_name cs u, all_scalar cs ->
+      match fst (m_parse ustate Extracted.scfg Extracted.tcfg Extracted.fcfg Extracted.rcfg hk g
+                         n rule_name (encode_str cs) u) with
+      | MOk v st' =>
+        s_parse Extracted.fcfg shk g true m rule_name cs = SFuel \/
+        (exists p, fst (m_parse ustate Extracted.scfg Extracted.tcfg Extracted.fcfg Extracted.rcfg hk (strip g)
+                                m rule_name (encode_str cs) u) = MPanic p) \/
+        exists cs' l, s_parse Extracted.fcfg shk g true m rule_name cs = SOk v cs' (off st') l
+      | MErr _ =>
+        s_parse Extracted.fcfg shk g true m rule_name cs = SFuel \/
+        (exists p, fst (m_parse ustate Extracted.scfg Extracted.tcfg Extracted.fcfg Extracted.rcfg hk (strip g)
+                                m rule_name (encode_str cs) u) = MPanic p) \/
+        exists l, s_parse Extracted.fcfg shk g true m rule_name cs = SFail l
+      | _ => True
+      end.
+Proof.
+  intros ustate hk shk g Hp NoLR n m rule_name cs u Hs.
+  exact (memoized_vs_spec ustate Extracted.scfg Extracted.fcfg Extracted.rcfg hk shk g
+           eq_refl eq_refl eq_refl Hp NoLR n m rule_name cs u Hs).
+Qed.
+Print Assumptions C01_memoized.
